@@ -182,6 +182,18 @@ TABLE.append(dict(cls='LLC', src='src/llc.cpp', hdr='include/tins/llc.h', struct
       asserts='if (G_k < hs && !(c && c->type_ == CLS_STP && G_k < 2)) __CPROVER_assert(y[G_k] == b[G_k], "every header byte (DSAP, SSAP, control field) is written back as parsed");\n  if (c && c->type_ == CLS_STP) __CPROVER_assert(y[0] == 0x42 && y[1] == 0x42 && b[0] == 0x42 && b[1] == 0x42, "an STP payload is announced by SAP 0x42 on both sides, as it was when parsed");',
       mutants='mutant: case LLC::SUPERVISORY:\\s*stream\\.write\\(control_field\\.super\\); ==> case LLC::SUPERVISORY: stream.write(control_field.unnumbered);'))
 
+TABLE.append(dict(cls='IPSecESP', src='src/ipsec.cpp', hdr='include/tins/ipsec.h', structs=[], pre='//@ struct include/tins/ipsec.h ipsec_header as ipsecesp_header nth 1',
+      members='ipsecesp_header header_;', ctor_rules='rule?: new Tins::(\\w+)\\( ==> new_\\1(', ser_rules='rule?: OMS output; ==> OMS output;', trailer='0',
+      asserts='if (G_k < hs) __CPROVER_assert(y[G_k] == b[G_k], "every header byte (SPI, sequence number) is written back as parsed");',
+      mutants='mutant: output\\.write\\(header_\\); ==> header_.seq_number = 0; output.write(header_);'))
+TABLE.append(dict(cls='UDP', src='src/udp.cpp', hdr='include/tins/udp.h', structs=['udp_header'], members='udp_header header_;',
+      setters=[('length', 'uint16_t new_len', 'uint16_t', 'new_len')],
+      ctor_rules='rule?: new Tins::(\\w+)\\( ==> new_\\1(',
+      ser_rules='rule: UDP_length\\(this, ==> UDP_length_set(this,\nrule: uint32_t checksum = 0;.*?(?=\\}\\s*$) ==> { uint16_t ck_ = nondet_uint16_t(); memcpy(buffer + 6, &ck_, 2); } /* checksum over the pseudo header: derived field, C05 */\n',
+      trailer='0',
+      asserts='_Bool derived = (G_k >= 4 && G_k < 8);   /* length, checksum */\n  if (G_k < hs && !derived) __CPROVER_assert(y[G_k] == b[G_k], "source and destination port are written back as parsed");\n  __CPROVER_assert((uint32_t)((y[4] << 8) | y[5]) == (uint16_t)(8 + ps), "the UDP length field is header plus payload");',
+      mutants='mutant: sizeof\\(udp_header\\) \\+ inner_pdu\\(\\)->size\\(\\) ==> inner_pdu()->size()'))
+
 
 def generate(outdir, tier):
     flags = class_flags()
